@@ -49,6 +49,7 @@ static void perform(Teakra::Teakra& t, const Call& c, std::vector<std::string>& 
     else if (e == "Empty") { unsigned r = t.SendDataIsEmpty((uint8_t)c.c) ? 1 : 0; log.push_back(ev("Empty", "c", c.c, "r", r)); }
     else if (e == "SemSet") { log.push_back(ev("SemSet", "v", c.v)); t.SetSemaphore((uint16_t)c.v); }
     else if (e == "SemClr") { t.ClearSemaphore((uint16_t)c.v); log.push_back(ev("SemClr", "v", c.v)); }
+    else if (e == "SemMask") { log.push_back(ev("SemMask", "v", c.v)); t.MaskSemaphore((uint16_t)c.v); }
     else if (e == "SemGet") { unsigned r = t.GetSemaphore(); log.push_back(ev("SemGet", "r", r)); }
     // DSP side: the functions behind the MMIO registers (logged before the call where a callback runs inside)
     else if (e == "GRecv") { unsigned r = t.MMIORead((uint16_t)(0x0C2 + 4 * c.c)); log.push_back(ev("GRecv", "c", c.c, "r", r)); }
@@ -91,6 +92,12 @@ int main(int argc, char** argv) {
         // semaphore words: set against clear / read
         {{{"SemClr", 0, 1}, {"SemGet", 0, 0}}, {{"GSemSet", 0, 1}, {"GSemSet", 0, 2}}, {{"SemGet", 0, 0}}},
         {{{"SemSet", 0, 1}, {"SemSet", 0, 2}}, {{"GSemGet", 0, 0}, {"GSemClr", 0, 1}, {"GSemGet", 0, 0}}, {}},
+        // masking against setting: the semaphore callback may run on either thread (fix bf7856c)
+        {{{"SemMask", 0, 1}, {"SemGet", 0, 0}, {"SemMask", 0, 0}}, {{"GSemSet", 0, 1}, {"GSemSet", 0, 3}}, {{"SemGet", 0, 0}}},
+        // two channels at once, status word in between
+        {{{"Send", 0, 1}, {"Send", 2, 2}}, {{"GRecv", 2, 0}, {"Stat", 0, 0}, {"GRecv", 0, 0}}, {{"Empty", 0, 0}, {"Empty", 2, 0}}},
+        // reply direction: send, poll, send again against receive + peek
+        {{{"Ready", 0, 0}, {"Recv", 0, 0}, {"Peek", 0, 0}}, {{"GSend", 0, 1}, {"Stat", 0, 0}, {"GSend", 0, 2}}, {{"Ready", 0, 0}, {"Peek", 0, 0}}},
     };
 
     std::map<std::string, long> classes;
